@@ -12,6 +12,59 @@ func init() {
 	Register("C06", checkC06)
 	Register("C07", checkC07)
 	Register("C05", checkC05)
+	Register("C10", checkC10)
+}
+
+func checkC10(c *Ctx) {
+	type cfg struct {
+		g     *SynGrammar
+		flags []string
+		tag   string
+		extra int
+	}
+	var cfgs []cfg
+	for _, g := range HostileCorpus {
+		cfgs = append(cfgs, cfg{g, nil, "combined", 0})
+	}
+	cfgs = append(cfgs, cfg{SynCorpus[0], nil, "combined", 0}, cfg{SynCorpus[0], []string{"-no_lexer"}, "no_lexer", 0},
+		cfg{RecoveryCorpus[0], nil, "with-error-symbol", 1})
+	var jobs []Job
+	for _, cf := range cfgs {
+		g := *cf.g
+		g.Flags = append(append([]string{}, g.Flags...), cf.flags...)
+		g.Name = cf.g.Name + cf.tag
+		res, err := c.Generate("tok_"+g.Name, g.BNF(false), g.Flags...)
+		if err != nil || res.Exit != 0 {
+			c.Inconclusive = append(c.Inconclusive, fmt.Sprintf("gocc failed on %s: %v", g.Name, err))
+			continue
+		}
+		t := res.Target("token", "gentoken/c10.go")
+		os.MkdirAll(filepath.Join(res.Dir, "_verifdata"), 0o755)
+		data := filepath.Join(res.Dir, "_verifdata", "tokdata.go")
+		os.WriteFile(data, []byte(g.HarnessDataPkg("token", false)), 0o644)
+		t.Harness = append(t.Harness, data)
+		jobs = append(jobs, Job{
+			Name:   fmt.Sprintf("bijection %s %s", cf.g.Name, cf.tag),
+			Target: t,
+			Run:    SymRun{Harness: "VerifC10Bijection", Params: map[string]int{"EXTRA": cf.extra}, LoopBound: 32},
+			Bounds: fmt.Sprintf("grammar %s (%s): every number in range, every terminal name, every unknown name of up to 3 arbitrary bytes", cf.g.Name, cf.tag),
+		})
+	}
+	// lexer-only file
+	res, err := c.Generate("tok_lexonly", "!ws : ' ' ;\nid : 'a'-'z' ;\nnum : '0'-'9' ;\n")
+	if err == nil && res.Exit == 0 {
+		t := res.Target("token", "gentoken/c10.go")
+		os.MkdirAll(filepath.Join(res.Dir, "_verifdata"), 0o755)
+		data := filepath.Join(res.Dir, "_verifdata", "tokdata.go")
+		os.WriteFile(data, []byte("//go:build verif\n\npackage token\n\nvar verifTermNames = []string{\"id\", \"num\"}\n"), 0o644)
+		t.Harness = append(t.Harness, data)
+		jobs = append(jobs, Job{Name: "bijection lexer-only", Target: t, Run: SymRun{Harness: "VerifC10Bijection", LoopBound: 32}, Bounds: "lexer-only grammar file"})
+	} else {
+		c.Inconclusive = append(c.Inconclusive, fmt.Sprintf("gocc failed on the lexer-only grammar: %v", err))
+	}
+	c.BoundsText = append(c.BoundsText, "generated token package of corpus grammars (hostile spellings; combined, -no_lexer, lexer-only, with error symbol): structural facts evaluated by the engine, round trips decided for a symbolic number and a symbolic unknown name (<= 3 bytes)",
+		"the 'lexer emits / parser is indexed by these numbers' half is enforced by C01/C02/C05/C06: their oracles speak terminal NAMES and convert through the generated token.TokMap")
+	c.RunJobs(filterJobs(jobs), 4)
 }
 
 // withRefTables adds the reference LR(1) tables of g to the target.
